@@ -293,6 +293,11 @@ func (f *Frame) run(st *State, reach string, args []Val, bindings []Val) {
 		f.regs[p] = args[i]
 		f.params[p.Name()] = args[i]
 	}
+	for old, i := range c.eng.paramAliases(fn) {
+		if i < len(args) {
+			f.params[old] = args[i]
+		}
+	}
 	for i, fv := range fn.FreeVars {
 		if i < len(bindings) {
 			f.regs[fv] = bindings[i]
@@ -303,6 +308,11 @@ func (f *Frame) run(st *State, reach string, args []Val, bindings []Val) {
 			if a, ok := ins.(*ssa.Alloc); ok && a.Comment != "" {
 				f.locals[a.Comment] = append(f.locals[a.Comment], a)
 			}
+		}
+	}
+	for old, cur := range c.eng.localAliases(fn) {
+		if _, ok := f.locals[old]; !ok {
+			f.locals[old] = f.locals[cur]
 		}
 	}
 	f.findLoops()
